@@ -33,17 +33,14 @@ def make_watcher(sn, wallet, clock):
     from skepticoin import mining as MI
     from decimal import Decimal
     from datetime import datetime
-    mw = MI.MinerWatcher.__new__(MI.MinerWatcher)
-
-    class A:
-        quiet = True
-    mw.args = A()
-    mw.recv_queue = FakeQueue()
+    import sys
+    argv = sys.argv
+    sys.argv = ['skepticoin-mine', '--quiet']
+    try:
+        mw = MI.MinerWatcher()          # the real constructor (argument parser, attribute initialisation)
+    finally:
+        sys.argv = argv
     mw.send_queues = [FakeQueue()]
-    mw.processes = []
-    mw.hash_stats = {}
-    mw.balance = Decimal(0)
-    mw.start_balance = Decimal(0)
     mw.start_time = datetime.fromtimestamp(clock() - 10)
     mw.wallet = wallet
     mw.coinstate = sn.lp().chain_manager.coinstate
@@ -103,6 +100,8 @@ def scenario(ck, trial, tier, reqs_assembly, reqs_node):
                     nonce = rng.getrandbits(20)
                     miner_pk = mw.public_key
                     for attempt in range(20000):
+                        if attempt % 25 == 24:
+                            net.clock.t += 1            # time passes while nonces are tried
                         sn.node.activate()
                         with contextlib.redirect_stdout(io.StringIO()):
                             mw.handle_request_scrypt_input_message(0, nonce)
@@ -225,13 +224,12 @@ def run(tier, seed):
                'reward and timestamp recomputed, served state / store / peer inboxes inspected; assembly compared with the '
                "extracted model's construct_block_for_mining, adoption with NodeModel.handle_mined; non-trivial = distinct "
                '(scenario, round)')
-    ck.trusted += ['extraction + OCaml driver', 'simnet', 'MinerWatcher object created without __init__ (argv parsing, worker '
-                   'processes and queues are not exercised)', 'sha256 stand-in for scrypt']
+    ck.trusted += ['extraction + OCaml driver', 'simnet', 'MinerWatcher constructed with argv patched; worker processes and inter-process queues are not exercised', 'sha256 stand-in for scrypt']
     ck.assumptions += ['the candidate is built on the state the chain manager serves at that moment (no block arrives '
                        'between assembly and the found-block handler; the miner and network threads are not interleaved)']
     r = ck.build(extract=True)
     ra, rn = [], []
-    for trial in range(4 if tier == 'quick' else 25):
+    for trial in range(8 if tier == 'quick' else 40):
         try:
             scenario(ck, trial, tier, ra, rn)
         except Exception:
